@@ -45,7 +45,57 @@ class _NullSelector(selectors.BaseSelector):
         self._map.clear()
 
 
+class _SeqHandle(asyncio.Handle):
+    """Handle that numbers the callbacks the loop runs (loop.cb_seq): events logged by the harness can
+    then be grouped by the callback that produced them."""
+
+    __slots__ = ()
+
+    def _run(self):
+        self._loop.cb_seq += 1
+        super()._run()
+
+
+class _SeqTimerHandle(asyncio.TimerHandle):
+    __slots__ = ()
+
+    def _run(self):
+        self._loop.cb_seq += 1
+        super()._run()
+
+
+class _SeqFuture(asyncio.Future):
+    """Future that remembers during which callback it was completed (done-callbacks run later)."""
+
+    def set_result(self, result):
+        self._verif_cb_seq = self.get_loop().cb_seq
+        super().set_result(result)
+
+    def set_exception(self, exception):
+        self._verif_cb_seq = self.get_loop().cb_seq
+        super().set_exception(exception)
+
+
 class VirtualLoop(asyncio.SelectorEventLoop):
+    cb_seq = 0
+
+    def _call_soon(self, callback, args, context):
+        handle = _SeqHandle(callback, args, self, context)
+        self._ready.append(handle)
+        return handle
+
+    def call_at(self, when, callback, *args, context=None):
+        if when is None:
+            raise TypeError("when cannot be None")
+        self._check_closed()
+        timer = _SeqTimerHandle(when, callback, args, self, context)
+        heapq.heappush(self._scheduled, timer)
+        timer._scheduled = True
+        return timer
+
+    def create_future(self):
+        return _SeqFuture(loop=self)
+
     def __init__(self):
         super().__init__(selector=_NullSelector())
         self._vnow = 0.0
